@@ -457,7 +457,8 @@ def make_worker(ctx):
     def worker(shard, items):
         res = {'configs': 0, 'evaluations': 0, 'nontrivial': 0, 'classes': {}, 'violations': [], 'crashes': [], 'deadline_hit': False,
                'starts': 0, 'reconfigs': 0, 'kicks': 0, 'samples': [], 'det_checked': 0, 'performed_by_action': {},
-               'shutdowns': 0, 'refused_401': 0, 'refused_403': 0, 'watchdog_retries': 0}
+               'shutdowns': 0, 'refused_401': 0, 'refused_403': 0, 'watchdog_retries': 0,
+               'performed_under_conflicting_lines': 0, 'of_these_permitted_by_first_line': 0}
         det = {}
         if items:
             i = len(items) // 2
@@ -519,8 +520,16 @@ def make_worker(ctx):
                         res['refused_401'] += 1
                     if t[0] == 403:
                         res['refused_403'] += 1
-                    for a in t[1]:
-                        res['performed_by_action'][a] = res['performed_by_action'].get(a, 0) + 1
+                    for a in list(t[1]) + (['shutdown'] if t[2] else []):
+                        if a != 'shutdown':
+                            res['performed_by_action'][a] = res['performed_by_action'].get(a, 0) + 1
+                        # where the oracle is lenient: two lines cover the action and only one of them permits it
+                        cover = [l for l in cfg[0] if a in l[1] or 'all' in l[1]]
+                        pw = presented_password(r['cred'])
+                        if len(cover) == 2 and sum(1 for l in cover if ref_may_perform(a, [l], pw)[0]) == 1:
+                            res['performed_under_conflicting_lines'] += 1
+                            if ref_may_perform(a, [cover[0]], pw)[0]:
+                                res['of_these_permitted_by_first_line'] += 1
                     if t[2]:
                         res['shutdowns'] += 1
                 if len(res['samples']) < 2 and (n == 0 or n % 3 == 1):
@@ -607,7 +616,9 @@ def run(ctx):
            'outcome_classes': classes, 'reports_delivered': perf, 'shutdowns_performed': tot('shutdowns'),
            'refused_401': tot('refused_401'), 'refused_403': tot('refused_403'), 'instance_starts': tot('starts'),
            'reconfigurations': tot('reconfigs'), 'start_vs_reconfigure_crosschecks': tot('det_checked'), 'kicks': tot('kicks'),
-           'watchdog_retries': tot('watchdog_retries')}
+           'watchdog_retries': tot('watchdog_retries'),
+           'performed_under_conflicting_lines': tot('performed_under_conflicting_lines'),
+           'of_these_permitted_by_first_line': tot('of_these_permitted_by_first_line')}
     return Result(LEVEL, cov, vio, ASSUME)
 
 
